@@ -251,7 +251,7 @@ def run(ctx):
         if e["panic"]:
             ctx.finding("pad:%s:%s:panic" % (c["id"], c["mode"]), "panic while re-marshalling: %s" % e["panic"], {"case": {k: c[k] for k in ("id", "sni", "mode", "sni2", "group")}})
     ctx.traces += len(rows) + len(rows2) + len(rows3)
-    if ctx.findings:
+    if W.unknown_findings(ctx):
         cov = {"evaluations": len(rows) + len(rows2), "distinct_nontrivial": len(rows), "rule": "see passing runs", "samples": [], "exhaustive": False}
         return "model_checking", cov, []
 
